@@ -41,6 +41,23 @@ Theorem C18_comment_indent : forall cur owner_indent ls c,
   /\ (forall c0, cur = Some c0 -> c_indent c = c_indent c0).
 Proof. exact comment_rule. Qed.
 
+(* histories on one entry / posting (mapping assignment, raw append / insert, del / pop / clear,
+   indent_by = ..., posting.indent = ...): by induction over the operation list, every step satisfies the
+   statement relative to the state current at that step *)
+Theorem C18_history : forall ops p, trace_ok p ops.
+Proof. exact history_ok. Qed.
+
+(* ... so after any history the default rule uses the current parent indent and the current indent_by *)
+Theorem C18_default_is_current : forall ops p k, let q := hrun p ops in
+  metas (p_items q) = [] ->
+  p_items (hrun p (ops ++ [HSetItem k])) = p_items q ++ [IMeta (parent_indent q ++ p_indent_by q) k].
+Proof. exact default_is_current. Qed.
+
+Theorem C18_assigned_is_current : forall ops p s,
+  p_indent_by (hrun p (ops ++ [HSetIndentBy s])) = s
+  /\ (p_indent (hrun p ops) <> None -> p_indent (hrun p (ops ++ [HSetIndent s])) = Some s).
+Proof. exact assigned_is_current. Qed.
+
 (* non-vacuity *)
 Example C18_meta_shared_ex :
   let p := mkparent (Some [32; 32]) [9] [IComment [32]; IMeta [32; 9] 1; IMeta [32; 9] 2] in
@@ -55,3 +72,7 @@ Example C18_comment_ex :
   set_comment None [9] (Some [[97; 10]; []]) = Some (mkcomment [9] [[97; 10]; []])
   /\ raw_text_of (mkcomment [9] [[97; 10]; []]) = [9; 59; 32; 97; 10; 9; 59].
 Proof. repeat split. Qed.
+Example C18_history_ex :
+  let p := mkparent (Some [32]) [32; 32] [] in
+  p_items (hrun p [HSetItem 1; HClear; HSetIndentBy [9]; HSetIndent [9; 9]; HSetItem 2]) = [IMeta [9; 9; 9] 2].
+Proof. reflexivity. Qed.
